@@ -9,6 +9,8 @@ def main():
     from vf.spec import build
     E = env.load()
     jobs = json.load(open(jobfile))
+    from vf import reach
+    reach.start(env.REPO)
     out = []
     for j in jobs:
         rec = {"key": j["key"], "variant": j["variant"], "hash_seed": os.environ.get("PYTHONHASHSEED")}
@@ -23,6 +25,7 @@ def main():
         except Exception as ex:
             rec["error"] = f"{type(ex).__name__}: {str(ex)[:200]}"
         out.append(rec)
+    out.append({"key": "__reach__", "reach": reach.drain()})
     with open(outfile, "wb") as f:
         pickle.dump(out, f)
 
